@@ -105,6 +105,9 @@ def check(model: Model, run: Run) -> None:
     common_coverage(ex, run)
     id_codec_symmetry(model, run)
     # a response for an unknown or completed id is refused with ProtocolError - provided building the refusal cannot itself fail
+    from ..tlvcheck import dispatch_entries_are_owned
+    dispatch_entries_are_owned(model, run, "N8-dispatch-entries-are-owned",
+                               "a response of a kind the client does not implement is taken for a SearchResultDone (or another final response) and completes an operation it does not belong to")
     from .c10 import refusal_text_is_total
     refusal_text_is_total(model, run, ex, "N7-refusal-is-raised-as-written")
     # ---- counter discipline ------------------------------------------------
